@@ -161,4 +161,77 @@ theorem gFirstIdx_none (rs : List GRoute) (req : Req) (h : gFirstIdx rs req = no
       | none => exact ih hi
       | some i => rw [hi] at h; cases h
 
+/-! ### legacy router: the stored routes (one per key, Method set by NewRouter, no Server) and the pick behind `legacyFindOrd` -/
+
+def lStore (ks : List Key) : Store := ks.map (fun k => ⟨k.template, k.method, .none⟩)
+
+def keyIdx (k : Key) : List Key → Nat
+  | [] => 0
+  | x :: xs => if x = k then 0 else keyIdx k xs + 1
+
+theorem lStore_keyIdx (ks : List Key) (k : Key) (h : k ∈ ks) :
+    (lStore ks)[keyIdx k ks]? = some ⟨k.template, k.method, .none⟩ := by
+  induction ks with
+  | nil => cases h
+  | cons x xs ih =>
+    unfold keyIdx
+    by_cases hx : x = k
+    · subst hx; simp [lStore]
+    · rw [if_neg hx]
+      have : k ∈ xs := by
+        cases h with
+        | head => exact absurd rfl hx
+        | tail _ h' => exact h'
+      simpa [lStore] using ih this
+
+/-- nothing is written to Method (NewRouter stored it); Server is written into a copy iff a server was matched -/
+def lPick (d : Doc) (ks : List Key) (r : Req) : Option Pick :=
+  if !legacyBuildOK d then none else
+  match legacyServer d r with
+  | none => none
+  | some (si, _, rem) =>
+    match legacyMatchOf ks r.method rem with
+    | some (k, _) => some ⟨keyIdx k ks, none, si.map SrvRef.doc⟩
+    | none => none
+
+theorem legacy_step_route (d : Doc) (ks : List Key) (r : Req) (t m : Str) (ps : List (Str × Str)) (sv : SrvRef)
+    (hk : ∀ rem k vals, legacyMatchOf ks r.method rem = some (k, vals) → k ∈ ks)
+    (h : legacyFindOrd d ks r = .route t m ps sv) :
+    ∃ hd, (stepCopy (lPick d ks) (lStore ks) r).2 = some hd ∧ observe (lStore ks) hd = some ⟨t, m, sv⟩ := by
+  unfold legacyFindOrd at h
+  cases hb : legacyBuildOK d with
+  | false => simp [hb] at h
+  | true =>
+    simp only [hb, Bool.not_true, Bool.false_eq_true, if_false] at h
+    cases hs : legacyServer d r with
+    | none => simp [hs] at h
+    | some x =>
+      obtain ⟨si, sp, rem⟩ := x
+      rw [hs] at h
+      simp only at h
+      cases hm : legacyMatchOf ks r.method rem with
+      | none =>
+        rw [hm] at h
+        simp only at h
+        split at h
+        · cases h
+        · split at h <;> cases h
+      | some kv =>
+        obtain ⟨k, vals⟩ := kv
+        rw [hm] at h
+        simp only at h
+        injection h with h1 h2 h3 h4
+        have hst := lStore_keyIdx ks k (hk rem k vals hm)
+        cases si with
+        | none =>
+          refine ⟨.stored (keyIdx k ks), ?_, ?_⟩
+          · simp [stepCopy, lPick, hb, hs, hm, hst]
+          · simp only [observe, hst]
+            simp only at h4
+            rw [h1, h2, h4]
+        | some i =>
+          refine ⟨.copy ⟨t, m, sv⟩, ?_, rfl⟩
+          simp only at h4
+          simp [stepCopy, lPick, hb, hs, hm, hst, Pick.apply, h1, h2, h4]
+
 end KinModel.Router
